@@ -943,6 +943,7 @@ func main() {
 	c.Rule = "five generated families run through the production revision reconciler (real parser, per-type linter, ImageBackend, FsPackageCache, ImageConfigStore; recording establisher). pkg: a package.yaml stream of 0-6 objects of every kind the object scheme decodes (CRD v1/v1beta1, Mutating/ValidatingWebhookConfiguration, XRD, Composition, CompositionRevision, ValidatingAdmissionPolicy) plus an undecodable ConfigMap, 0/1/2 meta objects of right/wrong kind and API version, Crossplane constraints met/unmet/malformed with ignoreCrossplaneConstraints unset/false/true, placed into an image as annotated base layer (plain, with decoy package.yaml in another layer, with extra annotated layer), flattened filesystem (plain, overridden lower layer, non-base annotation), several base-annotated layers, no package.yaml, empty image; reconciled cold, warm, then after the cache entry is truncated / bit-flipped / replaced by garbage / emptied / removed. fault: valid packages of 2-6 padded objects with the cache filesystem failing at Create, at byte N of the compressed entry or at Close (data kept or cut), or the registry stream failing at byte N of package.yaml; one armed reconcile (two when sticky), then fault-free reconciles. share: two revisions of one package with different images reconciled concurrently by one reconciler over one cache (optionally with a store fault), then again concurrently, then sequentially. sig: signature gate on; the real signature reconciler with a scripted validator and ImageConfigs (none / not matching / cosign / verification without cosign) interleaved with revision reconciles, or the Verified condition set by hand. build: a generated package directory built by the real xpkg.Builder (optionally on a runtime base image, with examples), fed raw / after AnnotateLayers / after a tarball round trip through the same path. Oracles: O1 every Establish call is handed exactly the multiset of objects written into the stream (GVK+name+canonical JSON via the public Go types), and no entry left by a failed Store is opened for reading; O2 a package invalid per golden/allowed_kinds.json, meta count/kind, constraints (unless ignored; malformed+ignored is left open) or verification never reaches the establisher or the runtime pre-hook; O3 built image parses back to the directory's objects. Revision names have the form the package manager generates (DNS label, no dots); packagePullPolicy Never is not generated. distinct = the generated case; non-trivial = at least 2 objects and a non-cold cache state or a linter-relevant defect (pkg), a fault that fired (fault), two revisions (share), gate on (sig), at least 2 objects (build)."
 	c.Rule += " sig: a third of the signature reconciles run with one failing API call (conflict, 500, timeout, applied-but-504, kind not served, 503, 404)."
 	c.Rule += " " + "Sources without a registry host: the image reference handed to the signature validator must be the one the revision controller installs."
+	c.Rule += " " + "A quarter of the package cases meet a pre-release build of Crossplane (own constraint truth table)."
 	c.Assumptions = []string{
 		"sim implements the apiserver rules of DESIGN.md 2.2",
 		"the running Crossplane version is " + runningVersion + ", injected into the production Versioner (normally set with -ldflags); constraint truth table written by hand for plain comparison, ~, ^ and x-range forms",
